@@ -43,6 +43,7 @@ PROP = dict(
                              'Fit.Links.Link_stdFactory_ok',
                              # (C) DecoderApi.run = (D') DecHist.history call by call; what the API returns under every fragmentation
                              'Fit.Links.Link_dechist_eq_api_partial',
+                             'Fit.Links.Link_dechist_values_partial',
                              'Fit.Links.Link_C08_ops_values_partial',
                              'Fit.Links.Link_C08_ops_values_partial_two'],
                      crosscheck=[('dfrag', 'linkinteg')]),
